@@ -176,6 +176,21 @@ func StrN(tag string, n int) string                        { return string(bytes
 func Bytes(tag string, capacity int) []byte                { return bytesOf(next(tag, "bytes")) }
 func Token(tag string) []byte                              { return bytesOf(next(tag, "bytes")) }
 
+// OpaqueBytes draws a []byte of arbitrary length and capacity whose content is irrelevant. Natively a
+// drawn size above 1 MiB cannot be materialised: the replay is declared not realisable.
+func OpaqueBytes(tag string) []byte {
+	d := next(tag, "opaque")
+	var v []int64
+	json.Unmarshal(d.Value, &v)
+	if len(v) != 2 || v[0] < 0 || v[1] < v[0] {
+		panic(divergePanic{"OpaqueBytes: bad recorded value"})
+	}
+	if v[1] > 1<<20 {
+		SkipNative()
+	}
+	return make([]byte, v[0], v[1])
+}
+
 func OneOf(tag string, menu ...string) string {
 	d := next(tag, "int")
 	var v int64
